@@ -6,11 +6,13 @@ at once or not at all.
 """
 from __future__ import annotations
 
+import ast
+
 from ..alg import Rat, sign_of
 from ..interp import EnumVal, Field, Obj, Opaque, Unsupported
 from ..model import mesh_model, new_interp
 from ..ops import area_scaled, column_sums, hermitian_defects, mat_diff, row_sums, has_atom_kind
-from ..src import loc
+from ..src import loc, AnalysisError
 
 OPS = "tdgl.finite_volume.operators"
 LEVEL = "proof"
@@ -50,7 +52,8 @@ def check(ctx):
     ctx.rule("R03.9", "the solver builds the operators it uses with pinning exactly when a terminal value is configured "
                       "(so that R03.5 speaks about the operators in use)", 1)
     ctx.rule("R03.8", "Mesh/EdgeMesh geometry (sites, edges, lengths, dual lengths, areas) is written by the constructors only", 1)
-    ctx.rule("R03.1", "Laplacian (no link variable) == divergence @ gradient, as merged COO blocks", 2)
+    ctx.rule("R03.1", "Laplacian (no link variable) == divergence @ gradient, as merged COO blocks; for every sparse-solver backend "
+                      "build_operators leaves the same mu_laplacian (format conversions only)", 4)
     ctx.rule("R03.2", "column sums of diag(areas) @ divergence vanish", 1)
     ctx.rule("R03.3", "column sums of diag(areas) @ boundary-flux matrix equal the boundary edge length", 1)
     ctx.rule("R03.4", "diag(areas) @ Laplacian is the weighted graph Laplacian: per edge W*[[-1,1],[1,-1]], W = dual/edge length, zero row sums", 5)
@@ -76,6 +79,35 @@ def check(ctx):
     DG2 = ip.matmul(mo.attrs["divergence"], mo.attrs["mu_gradient"])
     d = mat_diff(mo.attrs["mu_laplacian"], DG2)
     fbo = ctx.repo.func(OPS, "MeshOperators.build_operators")
+    # every backend branch of build_operators: the operator kept in self.mu_laplacian is the same matrix
+    from ..interp import Idx as _Idx
+    enum = ctx.repo.cls("tdgl.finite_volume.operators", "SparseSolver") if "SparseSolver" in ctx.repo.module(OPS).classes else None
+    members = []
+    for m_ in ctx.repo.modules.values():
+        if "SparseSolver" in m_.classes:
+            members = [(st.targets[0] if isinstance(st, ast.Assign) else st.target).id for st in m_.classes["SparseSolver"].node.body
+                       if isinstance(st, (ast.Assign, ast.AnnAssign)) and isinstance(st.targets[0] if isinstance(st, ast.Assign) else st.target, ast.Name)]
+    backends = 0
+    for mem in members:
+        if mem == "CUPY":
+            continue          # GPU only (declined)
+        ip_b = b["ip"]
+        try:
+            mo_b = ip_b.construct(ctx.repo.cls(OPS, "MeshOperators"), [b["mesh"], EnumVal(f"SparseSolver.{mem}")],
+                                  {"fixed_sites": _Idx("F", "fixed", "site"), "fix_psi": True})
+            ip_b.call_method(mo_b, "build_operators", [], {})
+            db = mat_diff(mo_b.attrs["mu_laplacian"], b["L"])
+            err = None
+        except AnalysisError as e:
+            db, err = [f"not analysable: {e}"], str(e)
+        backends += 1
+        ctx.ob("R03.1", f"sparse_solver={mem}: mu_laplacian after build_operators == build_laplacian(mesh)", not db, detail=db[:3],
+               where=f"{OPS}:MeshOperators.build_operators", construct=f"mu_laplacian for the {mem} backend", loc=loc(b["f_lap"], b["f_lap"].node),
+               message=f"with sparse_solver={mem} build_operators leaves a different mu_laplacian: {db[:2]}",
+               consequence="for that backend the scalar Laplacian is not divergence @ gradient (e.g. its transpose W diag(1/a) instead of diag(1/a) W): "
+                           "constants are not in its kernel and diag(areas) L is not symmetric")
+    if backends < 2:
+        raise AnalysisError(f"only {backends} sparse-solver backends found")
     ctx.ob("R03.1", "MeshOperators.mu_laplacian == divergence @ mu_gradient", not d,
            detail={"diff": d}, where=fbo.fq, construct="mu_laplacian == divergence @ mu_gradient",
            loc=loc(fbo, fbo.node),
